@@ -5,7 +5,7 @@
     accepted under exactly the valuations under which pattern j of the second
     is; in particular compiled alone or together makes no difference. *)
 From PM Require Import Model.Prelude Model.Domain Model.Automaton
-  Cert.LabCheck Cert.WinCheck Proofs.AbsEquiv Properties.C03.
+  Model.Traversal Model.DomString Cert.LabCheck Cert.WinCheck Proofs.AbsEquiv Proofs.StringExact Properties.C03.
 
 Theorem c06_pattern_independent_acceptance :
   forall (K V M H P : Type) (D : DomOps K V M H P), DomEq D ->
@@ -25,4 +25,18 @@ Theorem c06_pattern_independent_acceptance :
       (aaccepts v A1 (N.of_nat i) <-> aaccepts v A2 (N.of_nat j)).
 Proof. exact c04_c06_certified_automata_agree. Qed.
 
+(** strings, at the level of the run: a pattern that sits at position i of one
+    pattern list and position j of another (other patterns around it, another
+    order, duplicates, alone) is reported at exactly the same host positions by
+    any two automata compiled from the two lists that pass the certificate checks. *)
+Theorem c06_string_runs_agree :
+  forall A1 L1 rk1 ids1 pats1 pr1 A2 L2 rk2 ids2 pats2 pr2 h f1 f2 ms1 ms2 i j (p : spattern) a,
+    s_certified A1 L1 rk1 ids1 pats1 pr1 -> s_certified A2 L2 rk2 ids2 pats2 pr2 ->
+    run string_dom f1 A1 h = Ok ms1 -> run string_dom f2 A2 h = Ok ms2 ->
+    nth_error pats1 i = Some p -> nth_error pr1 i = Some true ->
+    nth_error pats2 j = Some p -> nth_error pr2 j = Some true -> p <> [] ->
+    ((exists len, In (N.of_nat i, SBound a len) ms1) <-> (exists len, In (N.of_nat j, SBound a len) ms2)).
+Proof. exact s_certified_agree. Qed.
+
 Print Assumptions c06_pattern_independent_acceptance.
+Print Assumptions c06_string_runs_agree.
